@@ -11,6 +11,7 @@ import (
 
 	"github.com/advancedclimatesystems/gonnx"
 	"github.com/advancedclimatesystems/gonnx/ops/opset13"
+	"gorgonia.org/tensor"
 )
 
 // one concurrently exercised model: bytes, an input builder per variant, output names
@@ -55,7 +56,7 @@ func genC17(dir, tier string, seed int64) {
 			}
 		}
 	}
-	res := goOnlyResult{Stream: "C17_goroutines", Rule: "for the sample models and single-node models from every fixture (all inputs after the first as shared weights; Scaler/LinearRegressor/Constant attribute tensors included): 2, 4, 8 and 16 goroutines released by one barrier, each performing a sequence of Runs on ONE shared Model with its own input tensors, with concurrent NewModelFromBytes calls in the background; every output compared bit for bit with the sequential baseline; the binary is built with the Go race detector (a report is a violation)", Violations: []string{}}
+	res := goOnlyResult{Stream: "C17_goroutines", Rule: "for the sample models and single-node models from every fixture (all inputs after the first as shared weights; Scaler/LinearRegressor/Constant attribute tensors included): 2, 4, 8 and 16 goroutines released by one barrier, each performing a sequence of Runs on ONE shared Model with its own input tensors (one Run in five with an input whose last axis is one too long, so that it fails inside an operator, or not, exactly as it does alone), with concurrent NewModelFromBytes calls in the background; every output compared bit for bit with the sequential baseline; the binary is built with the Go race detector (a report is a violation)", Violations: []string{}}
 	rounds := 1
 	runsPer := 24
 	if tier == "thorough" {
@@ -84,6 +85,42 @@ func genC17(dir, tier string, seed int64) {
 		}
 		if !ok {
 			continue
+		}
+		// a variant of every input set that (mostly) FAILS inside an operator -- one input with its last axis one
+		// longer, which the dynamic signature lets through: failing Runs are mixed with the valid ones, and
+		// each must end exactly as it ends alone
+		mkBad := func(v int) gonnx.Tensors {
+			in := cm.mk(v)
+			var names []string
+			for n := range in {
+				names = append(names, n)
+			}
+			sort.Strings(names)
+			for _, n := range names {
+				t := in[n]
+				if d, isF := t.Data().([]float32); isF && len(t.Shape()) >= 1 {
+					sh := t.Shape().Clone()
+					sh[len(sh)-1]++
+					nn := 1
+					for _, e := range sh {
+						nn *= e
+					}
+					nd := make([]float32, nn)
+					copy(nd, d)
+					in[n] = tensor.New(tensor.WithShape(sh...), tensor.WithBacking(nd))
+					break
+				}
+			}
+			return in
+		}
+		badBase := map[int]string{}
+		for v := 0; v < cm.nVar; v++ {
+			m, err := gonnx.NewModelFromBytes(cm.bytes)
+			if err != nil {
+				break
+			}
+			out, err, _ := runRec(m, mkBad(v))
+			badBase[v] = outSnap(out, err, cm.outs)
 		}
 		for round := 0; round < rounds && !hung; round++ {
 			pick := []int{4, 8, 16}[r.Intn(3)]
@@ -122,12 +159,16 @@ func genC17(dir, tier string, seed int64) {
 						<-start
 						for k := 0; k < runsPer; k++ {
 							v := (g + k) % cm.nVar
-							out, err, _ := runRec(shared, cm.mk(v))
+							in, want := cm.mk(v), base[v]
+							if (g*7+k)%5 == 4 {
+								in, want = mkBad(v), badBase[v]
+							}
+							out, err, _ := runRec(shared, in)
 							atomic.AddInt64(&returned, 1)
-							if s := outSnap(out, err, cm.outs); s != base[v] {
+							if s := outSnap(out, err, cm.outs); s != want {
 								mu.Lock()
 								if bad == "" {
-									bad = fmt.Sprintf("%s: goroutine %d of %d, Run %d: result differs from the sequential baseline: %.300s  vs  %.300s", cm.name, g, nG, k, s, base[v])
+									bad = fmt.Sprintf("%s: goroutine %d of %d, Run %d: result differs from the sequential baseline: %.300s  vs  %.300s", cm.name, g, nG, k, s, want)
 								}
 								mu.Unlock()
 							}
